@@ -498,6 +498,11 @@ class StmtMixin:
             if spec and 'throws' in spec['flags']:
                 info['maythrow'] = True
             self.protos.append(sig + ('\n' + '\n'.join(contract) if contract else '') + ';')
+            stub = contract_stub(cname, self.ctype(rett), contract) if contract else None
+            if stub:
+                # a function that is only declared here (its body is outside the unit): groups that ask for -DCXX_STUB_<fn> get
+                # its contract as the body instead of goto-instrument's replacement
+                self.bodies.append((cname + '__stub', f'#ifdef CXX_STUB_{cname}\n{sig}\n{stub}#endif\n'))
             return info
         info['has_body'] = True
         saved = self.cur
